@@ -279,13 +279,12 @@ Qed.
 Lemma keys_distinct L st fv1 fv2 v1 m1 v2 m2 :
   sound_layout L (s_tree st) (s_store st) -> keys_local (s_tree st) = true ->
   values_fit (s_tree st) (s_store st) fv1 -> values_fit (s_tree st) (s_store st) fv2 ->
-  complete (s_tree st) fv1 -> complete (s_tree st) fv2 ->
   get_value st fv1 None None = Ok v1 -> get_mask st fv1 None None = Ok m1 ->
   get_value st fv2 None None = Ok v2 -> get_mask st fv2 None None = Ok m2 ->
   (exists i f, In (i, f) (enabled_fields (s_tree st) fv1) /\ zassoc i fv1 <> zassoc i fv2) ->
   ~ keys_intersect v1 m1 v2 m2.
 Proof.
-  intros SL HK F1 F2 C1 C2 V1 M1 V2 M2 [i0 [f0 [Hin0 Hdiff]]] [k [K1 K2]].
+  intros SL HK F1 F2 V1 M1 V2 M2 [i0 [f0 [Hin0 Hdiff]]] [k [K1 K2]].
   pose proof (sl_placed _ _ _ SL) as HP.
   apply (mask_is_union L) in M1; [|exact HP]. apply (mask_is_union L) in M2; [|exact HP].
   assert (R : forall i f, In (i, f) (enabled_fields (s_tree st) fv1) ->
@@ -296,8 +295,8 @@ Proof.
     assert (p' = p /\ l' = l) by (split; congruence). destruct H; subst p' l'.
     destruct (placed_pos _ _ _ _ _ _ _ _ HP H1 Hr) as [P1 [P2 P3]].
     rewrite Hz1, Hz2. f_equal. rewrite <- Hb1, <- Hb2.
-    assert (Hpos : forall fv i f st l, In (i, f) (enabled_fields (s_tree st) fv) ->
-                     frange (s_store st) f = Some (st, l) -> 0 <= st /\ 0 <= l).
+    assert (Hpos : forall fv i f (p0 l0 : Z), In (i, f) (enabled_fields (s_tree st) fv) ->
+                     frange (s_store st) f = Some (p0, l0) -> 0 <= p0 /\ 0 <= l0).
     { intros fv i' f' st' l' Hi Hr2. destruct (placed_pos _ _ _ _ _ _ _ _ HP Hi Hr2). lia. }
     transitivity (read_field k p l).
     - apply read_field_ext; try lia. intros j Hj. apply (land_mask_bit k m1); [exact K1|].
@@ -306,4 +305,13 @@ Proof.
       rewrite M2. apply union_bits_bit; [apply Hpos|]. exists i, f, p, l. auto. }
   pose proof (agree_subtree _ _ _ R (s_tree st) HK (fun x H => H) (fun x H => H)) as Heq.
   apply Hdiff. apply (R i0 f0 Hin0). now rewrite <- Heq.
+Qed.
+
+(* a key can only be generated for a complete instance *)
+Lemma get_value_complete st fv v : get_value st fv None None = Ok v -> complete (s_tree st) fv.
+Proof.
+  intros H i f Hin. unfold get_value, select in H. simpl in H.
+  match type of H with (if ?c then _ else _) = _ => destruct c end; [discriminate|].
+  apply value_loop_spec in H. destruct H as [_ Hall].
+  destruct (Hall _ _ Hin) as [p [l [x [_ [_ Hz]]]]]. congruence.
 Qed.
